@@ -1,2 +1,3 @@
 -- root import of everything the audit looks at (kept in sync by `check`, which fails if a Props file is missing here)
 import CliUtils.Props.C19
+import CliUtils.Props.C15
